@@ -101,6 +101,9 @@ class Gen:
                 elif cmd == 'impl':
                     self.do_impl(d[1], ' '.join(x for x in d[2:] if '=' not in x or x.startswith('From<')))
                     i += 1
+                elif cmd == 'census':
+                    self.do_census(d[1], d[2], d[3], _opts(d[4:]))
+                    i += 1
                 elif cmd in ('fn', 'stub'):
                     # collect sections until //@ end
                     j = i + 1
@@ -247,6 +250,13 @@ class Gen:
         if 'opaque' in opts:
             # the type is used by name only: its fields are hidden from Verus (listed as assumed)
             self.emit('#[verifier::external_body]', {'kind': 'gen'})
+        if 'opaque' in opts or 'reject_recursive' in opts:
+            m = re.search(r'\b(?:struct|enum)\s+\w+\s*<([^{(;]*?)>\s*(?:\{|\(|where|;)', body)
+            if m:
+                for prm in m.group(1).split(','):
+                    prm = prm.strip().split(':')[0].strip()
+                    if prm and not prm.startswith("'"):
+                        self.emit('#[verifier::reject_recursive_types(%s)]' % prm, {'kind': 'gen'})
         if opts.get('external_derive'):
             # the derived impls are left outside Verus; what is assumed about them is stated (and listed as trusted)
             self.emit('#[verifier::external_derive]', {'kind': 'gen'})
@@ -377,6 +387,13 @@ class Gen:
                 if off is None:
                     raise rsx.LostAnchor('%s: %s has no tail expression' % (rel, qual))
             inserts.append((off, sec))
+        if is_stub and 'unmut' in opts:
+            # stubbed signatures only: `mut self` / `mut x: T` binding modes are irrelevant without a body
+            text, n = re.subn(r'\(\s*mut\s+self\b', '(self', text, count=1)
+            self.norm_counts['N7_stub_mut_binding'] = self.norm_counts.get('N7_stub_mut_binding', 0) + n
+            masked, _ = rsx.mask(text)
+            fn_kw = re.search(r'\bfn\b', masked).start()
+            body_open = rsx.first_open_brace(masked, fn_kw)
         if is_stub:
             # keep signature only
             spec = [s for s in sections if s['sec'] == 'spec']
@@ -414,6 +431,28 @@ class Gen:
         if record:
             self.functions.append({'fn': qual, 'file': rel, 'lines': [it.line_start, it.line_end], 'sha256': it.sha256,
                                    'loops': len(loops), 'props': props})
+
+    def do_census(self, rel, impl_match, name, opts):
+        """Syntactic census of a function that is NOT brought under Verus: loop count / call-site counts only."""
+        f = self.rf(rel)
+        impl_match = impl_match.replace('~', ' ')
+        it = f.find_fn(name, impl_match)
+        qual = (impl_match + '::' if impl_match != '-' else '') + name
+        props = [p for p in opts.get('props', '').split(',') if p]
+        masked, _ = rsx.mask(it.text)
+        fn_kw = re.search(r'\bfn\b', masked).start()
+        bo = rsx.first_open_brace(masked, fn_kw)
+        bc = rsx.match_close(masked, bo)
+        loops = rsx.fn_loops(it.text)
+        if 'maxloops' in opts:
+            self.syntactic.append((qual, 'census/at-most-%s-loops' % opts['maxloops'], len(loops) <= int(opts['maxloops']),
+                                   '%d loop(s) in the body' % len(loops), props, (rel, it.line_start)))
+        for spec in [x for x in opts.get('calls', '').split(',') if x]:
+            callee, want = spec.split(':')
+            n = len(re.findall(r'\b%s\s*\(' % re.escape(callee), masked[bo:bc]))
+            self.syntactic.append((qual, 'census/calls-%s-exactly-%s-times' % (callee, want), n == int(want),
+                                   '%d call site(s) of %s in the body' % (n, callee), props, (rel, it.line_start)))
+        self.items.append({'item': 'census-only fn ' + qual, 'file': rel, 'lines': [it.line_start, it.line_end], 'sha256': it.sha256})
 
     def add_canary(self, sections):
         sections = [dict(s, lines=list(s['lines'])) for s in sections]
